@@ -2,8 +2,8 @@
 import vlib, json
 LEVEL = 'proof'
 N = 1024
-LAYOUTS_Q = [(3, 7), (2, 10), (4, 8), (2, 16), (16, 2), (1, 1), (5, 3)]
-LAYOUTS_T = LAYOUTS_Q + [(8, 4), (3, 10), (1, 30), (10, 3), (6, 5), (2, 8)]
+LAYOUTS_Q = [(3, 7), (2, 10), (4, 8), (2, 16), (16, 2), (1, 1), (5, 3), (1, 30)]
+LAYOUTS_T = LAYOUTS_Q + [(8, 4), (3, 10), (10, 3), (6, 5), (2, 8), (1, 26)]
 
 def ints(s): return [int(x) for x in s.split()]
 def fmt(v): return ' '.join(map(str, v))
@@ -116,7 +116,11 @@ def run(ctx):
                 # random 32-bit rows: the double-precision products carry (k+1)l*N*2^(B-1)*2^31; the error grows accordingly
                 tolr = tol * 4
                 worst[(l, B, k, 'randrows')] = max(worst.get((l, B, k, 'randrows'), 0), d)
-                if d > tolr:
+                if d > tolr and B >= 27:
+                    # the exact model is right here and the implementation is not: a failing input, not a broken correspondence
+                    ctx.report('extprod-int64-overflow-large-Bgbit', '%s variant (l,B)=(%d,%d) k=%d: external product with full-range rows differs from the exact ring value by %d units (tolerance %d)' % (var, l, B, k, d, tolr),
+                               {'case': line[:200000], 'opcode': opc, 'maxdiff': d})
+                elif d > tolr:
                     ctx.soft('correspondence:extprod-randrows', '%s variant (l,B)=(%d,%d) k=%d: differs from the model by %d units (tolerance %d) on random rows' % (var, l, B, k, d, tolr),
                              {'case': line[:200000], 'opcode': opc, 'maxdiff': d})
             # FFT image of the rows converted back: faithful within 1 unit... (rows of full 32-bit size)
